@@ -1,7 +1,7 @@
 """Regenerate the seeded-changes table of DESIGN.md (section 6) from seeded/*/meta.json."""
 import glob, json, os, re
 rows = []
-for d in sorted(glob.glob('/verif/seeded/*/')):
+for d in sorted(glob.glob('/verif/seeded/C[0-9][0-9]-*/')):
     m = json.load(open(d + 'meta.json'))
     note = (m.get('note', '') or '')
     if m.get('status'):
